@@ -123,6 +123,7 @@ pub mod buffer_redux {
         pub fn make_room(&mut self)
             ensures final(self).buf() == old(self).buf(), final(self).base() == old(self).base(), final(self).cap() == old(self).cap(),
                     final(self).head() == 0, final(self).same_source(old(self)),
+                    old(self).wf() ==> final(self).wf(),
         { unimplemented!() }
 
         /// StdBuf::reserve: at least `additional` usable bytes afterwards, contents untouched
@@ -135,6 +136,7 @@ pub mod buffer_redux {
                     final(self).usable() >= additional,
                     old(self).usable() >= additional ==> final(self).cap() == old(self).cap(),
                     final(self).same_source(old(self)),
+                    old(self).wf() ==> final(self).wf(),
         { unimplemented!() }
 
         /// BufRead::consume: clamps to the buffer length; cursors reset when the buffer runs empty
@@ -145,6 +147,7 @@ pub mod buffer_redux {
                        &&& final(self).base() == old(self).base() + a
                        &&& final(self).head() == (if a == old(self).buf().len() { 0 } else { old(self).head() + a }) }),
                     final(self).cap() == old(self).cap(), final(self).same_source(old(self)),
+                    old(self).wf() ==> final(self).wf(),
         { unimplemented!() }
     }
 
